@@ -6,6 +6,7 @@ import (
 	"encoding/hex"
 	"encoding/json"
 	"fmt"
+	"os"
 	"strconv"
 	"time"
 
@@ -419,7 +420,10 @@ func lxBytePass(id, text string, limit time.Duration) map[string]interface{} {
 
 func init() {
 	subcommands["parse"] = func(in, out string) error {
-		workers := 0
+		workers := 0 // 0 = one per CPU; VERIF_WORKERS=1 for undisturbed timing
+		if w, err := strconv.Atoi(os.Getenv("VERIF_WORKERS")); err == nil && w > 0 {
+			workers = w
+		}
 		return nd.Each(in, out, workers, func(line []byte) (interface{}, error) {
 			var c lxParseReq
 			if err := json.Unmarshal(line, &c); err != nil {
